@@ -361,6 +361,10 @@ func ProxyWithConfig(config ProxyConfig) echo.MiddlewareFunc {
 				} else {
 					tgt = config.Balancer.Next(c)
 				}
+				if tgt == nil {
+					// the balancer has no target (e.g. all were removed): nothing to forward to
+					return config.ErrorHandler(c, echo.NewHTTPError(http.StatusBadGateway, "proxy: no upstream target available"))
+				}
 
 				c.Set(config.ContextKey, tgt)
 
